@@ -1684,122 +1684,7 @@ def _assert_implied(test, facts, f, m, ab):
 
 # --------------------------------------------------------------------- R8
 LEXEME_PREDICATES = {'is_piped_symbol': '|', 'is_string_const': '"'}
-PROBES = ['\n', '\r', '\t', ' ', 'a', 'Z', '0', '_', '-', '"', '|', '\\',
-          ';', '(', ')', '\xe9']
-
-
-def _class_accepts(item, ch, dotall):
-    """Does the one-character regex item accept ``ch``?  None: unknown."""
-    import re._constants as rc
-    op, av = item
-    if op is rc.ANY:
-        return ch != '\n' or dotall
-    if op is rc.LITERAL:
-        return ord(ch) == av
-    if op is rc.NOT_LITERAL:
-        return ord(ch) != av
-    if op is rc.IN:
-        neg = False
-        hit = False
-        for (o2, a2) in av:
-            if o2 is rc.NEGATE:
-                neg = True
-            elif o2 is rc.LITERAL:
-                hit = hit or ord(ch) == a2
-            elif o2 is rc.RANGE:
-                hit = hit or a2[0] <= ord(ch) <= a2[1]
-            elif o2 is rc.CATEGORY:
-                name = str(a2)
-                base = {'CATEGORY_SPACE': ch.isspace(),
-                        'CATEGORY_NOT_SPACE': not ch.isspace(),
-                        'CATEGORY_DIGIT': ch.isdigit(),
-                        'CATEGORY_NOT_DIGIT': not ch.isdigit(),
-                        'CATEGORY_WORD': ch.isalnum() or ch == '_',
-                        'CATEGORY_NOT_WORD': not (ch.isalnum() or ch == '_')
-                        }.get(name)
-                if base is None:
-                    return None
-                hit = hit or base
-            else:
-                return None
-        return hit != neg
-    return None
-
-
-def _regex_delimited(pattern, flags_dotall, q, fullmatch, want_pairs):
-    """Judge a pattern meant to say "starts with q, ends with q".
-    -> (ok, reason) ; raises AnalysisError for shapes not understood."""
-    import re._parser as rp
-    import re._constants as rc
-    try:
-        tree = rp.parse(pattern)
-    except Exception as e:
-        raise AnalysisError(f'pattern {pattern!r} does not parse: {e}')
-    dotall = flags_dotall or bool(tree.state.flags & 16)
-    items = list(tree)
-    while items and items[0][0] is rc.AT and str(items[0][1]) in (
-            'AT_BEGINNING', 'AT_BEGINNING_STRING'):
-        items.pop(0)
-    anchored_end = fullmatch
-    while items and items[-1][0] is rc.AT and str(items[-1][1]) in (
-            'AT_END', 'AT_END_STRING'):
-        items.pop()
-        anchored_end = True
-    if len(items) < 2 or items[0] != (rc.LITERAL, ord(q)) or \
-            items[-1] != (rc.LITERAL, ord(q)):
-        raise AnalysisError(
-            f'pattern {pattern!r} is not <{q}> ... <{q}>')
-    if not anchored_end:
-        return False, ('the pattern is not anchored at the end: any text '
-                       f'that merely starts with {q}...{q} is accepted')
-    body = items[1:-1]
-    if not body:
-        return False, f'the pattern accepts only the empty lexeme {q}{q}'
-    if len(body) != 1 or body[0][0] not in (rc.MAX_REPEAT, rc.MIN_REPEAT):
-        raise AnalysisError(f'body of pattern {pattern!r} is not one '
-                            'repetition')
-    lo, hi, sub = body[0][1]
-    if lo != 0 or hi != rc.MAXREPEAT:
-        return False, (f'the body must occur {lo}..{hi} times: lexemes of '
-                       'other lengths are not recognised')
-    sub = list(sub)
-    # (?:X|qq)* for strings
-    alts = None
-    if len(sub) == 1 and sub[0][0] is rc.SUBPATTERN:
-        sub = list(sub[0][1][-1])
-    if len(sub) == 1 and sub[0][0] is rc.BRANCH:
-        alts = [list(a) for a in sub[0][1][1]]
-    elif len(sub) == 1:
-        alts = [sub]
-    else:
-        raise AnalysisError(f'body of pattern {pattern!r} not understood')
-    singles = [a[0] for a in alts if len(a) == 1]
-    pairs = [a for a in alts if len(a) == 2 and all(
-        x == (rc.LITERAL, ord(q)) for x in a)]
-    if len(singles) + len(pairs) != len(alts):
-        raise AnalysisError(f'body of pattern {pattern!r} not understood')
-    rejected = []
-    for ch in PROBES:
-        if ch == q:
-            continue
-        acc = [_class_accepts(it, ch, dotall) for it in singles]
-        if any(a is None for a in acc):
-            raise AnalysisError(f'character class in {pattern!r} not '
-                                'understood')
-        if not any(acc):
-            rejected.append(ch)
-    if rejected:
-        return False, ('the body rejects the characters '
-                       f'{rejected}: a lexeme containing one of them '
-                       '(e.g. a quoted symbol or string spanning lines) is '
-                       'not recognised')
-    if want_pairs:
-        q_ok = any(_class_accepts(it, q, dotall) for it in singles) or pairs
-        if not q_ok:
-            return False, (f'the body rejects {q}: a string literal with an '
-                           f'escaped quote ({q}{q}) is not recognised as a '
-                           'string constant')
-    return True, ''
+from ..regexlex import regex_delimited as _regex_delimited, PROBES  # noqa
 
 
 def rule_r8(chk, prog):
